@@ -621,6 +621,11 @@ def ca_type(rd_rs1, rs2, *, opcode, funct2, funct6, cs=None):
 def cb_type(rs1, imm, *, opcode, funct3, cs=None):
     rs1 = lookup_register(rs1, compressed=True)
 
+    if imm < -256 or imm > 255:
+        raise ValueError('8-bit MO2 immediate must be between -0x100 (-256) and 0xff (255): {}'.format(imm))
+    if imm % 2 != 0:
+        raise ValueError('8-bit MO2 immediate must be a multiple of 2: {}'.format(imm))
+
     # validate constraints
     for c in cs or []:
         c(rs1=rs1, imm=imm)
@@ -651,6 +656,9 @@ def cb_type(rs1, imm, *, opcode, funct3, cs=None):
 # c.srli, c.srai, c.andi
 def cbi_type(rd_rs1, imm, *, opcode, funct2, funct3, cs=None):
     rd_rs1 = lookup_register(rd_rs1, compressed=True)
+
+    if imm < -32 or imm > 31:
+        raise ValueError('6-bit immediate must be between -0x20 (-32) and 0x1f (31): {}'.format(imm))
 
     # validate constraints
     for c in cs or []:
@@ -796,8 +804,8 @@ C_JAL      = partial(cj_type,  opcode=0b01, funct3=0b001)
 C_LI       = partial(ci_type,  opcode=0b01, funct3=0b010, cs=[RegRdRs1NotZero])
 C_ADDI16SP = partial(cia_type, opcode=0b01, funct3=0b011, cs=[ImmNotZero])  # special syntax
 C_LUI      = partial(ciu_type, opcode=0b01, funct3=0b011, cs=[RegRdRs1NotZero, RegRdRs1NotTwo, ImmNotZero])
-C_SRLI     = partial(cbi_type, opcode=0b01, funct2=0b00, funct3=0b100, cs=[ImmNotZero])
-C_SRAI     = partial(cbi_type, opcode=0b01, funct2=0b01, funct3=0b100, cs=[ImmNotZero])
+C_SRLI     = partial(cbi_type, opcode=0b01, funct2=0b00, funct3=0b100, cs=[ImmNotZero, ShamtBit5Zero])
+C_SRAI     = partial(cbi_type, opcode=0b01, funct2=0b01, funct3=0b100, cs=[ImmNotZero, ShamtBit5Zero])
 C_ANDI     = partial(cbi_type, opcode=0b01, funct2=0b10, funct3=0b100)
 C_SUB      = partial(ca_type,  opcode=0b01, funct2=0b00, funct6=0b100011)
 C_XOR      = partial(ca_type,  opcode=0b01, funct2=0b01, funct6=0b100011)
@@ -806,7 +814,7 @@ C_AND      = partial(ca_type,  opcode=0b01, funct2=0b11, funct6=0b100011)
 C_J        = partial(cj_type,  opcode=0b01, funct3=0b101)
 C_BEQZ     = partial(cb_type,  opcode=0b01, funct3=0b110)
 C_BNEZ     = partial(cb_type,  opcode=0b01, funct3=0b111)
-C_SLLI     = partial(ci_type,  opcode=0b10, funct3=0b000, cs=[RegRdRs1NotZero, ImmNotZero])
+C_SLLI     = partial(ci_type,  opcode=0b10, funct3=0b000, cs=[RegRdRs1NotZero, ImmNotZero, ShamtBit5Zero])
 C_LWSP     = partial(cil_type, opcode=0b10, funct3=0b010, cs=[RegRdRs1NotZero])
 C_JR       = partial(cr_type,  opcode=0b10, funct4=0b1000, rs2=0, cs=[RegRdRs1NotZero])  # special syntax
 C_MV       = partial(cr_type,  opcode=0b10, funct4=0b1000, cs=[RegRdRs1NotZero, RegRs2NotZero])
